@@ -61,8 +61,11 @@ def oracle(H, rng):
                     return f"from_hyperedge_list(to_hyperedge_list(H)) raised {type(e).__name__}: {e}"
                 if [frozenset(H2.edges.members(e)) for e in H2.edges] != [frozenset(m) for m in l]:
                     return "hyperedge list round trip changes the member sets or their order"
-        else:
-            H2 = xgi.from_hyperedge_list(l, create_using=xgi.SimplicialComplex)
+        elif not ambiguous_first(l):      # the same documented ambiguity (simplicial histories now carry mixed labels too)
+            try:
+                H2 = xgi.from_hyperedge_list(l, create_using=xgi.SimplicialComplex)
+            except Exception as e:  # noqa: BLE001
+                return f"from_hyperedge_list(to_hyperedge_list(S)) raised {type(e).__name__}: {e}"
             if {frozenset(H2.edges.members(e)) for e in H2.edges} != set(s["edges"].values()):
                 return "hyperedge list round trip of a simplicial complex changes the simplices"
         d = xgi.to_hyperedge_dict(H)
